@@ -282,6 +282,9 @@ class Persona(object):
         if b == 'zip':
             return '27701'
         if b.startswith('foreign_'):
+            # every fifth filer has a foreign address (decided from the key, not from the random stream)
+            if int(h([self.key, 'foreign'], 4), 16) % 5 == 0:
+                return {'foreign_country': 'France', 'foreign_province': 'Ile de France', 'foreign_postal_code': '75001'}.get(b, '')
             return ''
         if b == 'number_dependents':
             return self.ndep
@@ -495,9 +498,9 @@ class Persona(object):
 
     def _f_8889(self, b, inst, inp, r):
         if b == 'age_under_55':
-            return True
+            return not getattr(self, 'hsa_over_55', False)
         if b == 'hsa_full_year':
-            return True
+            return not getattr(self, 'hsa_part_year', False)
         if b == 'hdhp_plan_family':
             return self.hsa_family and (getattr(self, 'hsa_family_both', False) or not (self.hsa_you and self.hsa_spouse))
         if b == 'hsa_contributions':
@@ -668,6 +671,13 @@ def directed_personas(year, seed, n):
         p = plain_persona(year, 'MFJ', [round(r.uniform(50000, 90000), 2), round(r.uniform(30000, 60000), 2)], key=f'dirhsa:{seed}:{k}',
                                hsa_you=True, hsa_spouse=True, hsa_family=False, s1_adjust=True)
         out.append(('F4d', p))
+        # a filer of 55 or more with self-only coverage (the additional contribution), and one covered for part of the year only
+        p = plain_persona(year, 'S', round(r.uniform(50000, 90000), 2), key=f'dirhsa55:{seed}:{k}', hsa_you=True, hsa_family=False, s1_adjust=True)
+        p.hsa_over_55 = True
+        out.append(('F4o', p))
+        p = plain_persona(year, 'S', round(r.uniform(50000, 90000), 2), key=f'dirhsapy:{seed}:{k}', hsa_you=True, hsa_family=False, s1_adjust=True)
+        p.hsa_part_year = True
+        out.append(('F4y', p))
         # the same with family coverage (both spouses on a family plan: the limit is shared)
         p = plain_persona(year, 'MFJ', [round(r.uniform(50000, 90000), 2), round(r.uniform(30000, 60000), 2)], key=f'dirhsaf:{seed}:{k}',
                                hsa_you=True, hsa_spouse=True, hsa_family=True, s1_adjust=True)
@@ -784,6 +794,33 @@ def directed_personas(year, seed, n):
         p = plain_persona(year, 'MFJ', [round(base_ + r.uniform(200, 2500), 2)], key=f'dirftc:{seed}:{k}', n_int=1,
                           ints=[{'box_1': round(r.uniform(200, 900), 2), 'box_3': 0.0, 'box_4': 0.0, 'box_6': round(r.uniform(250, 590), 2), 'box_8': 0.0, 'box_2': 0.0}])
         out.append(('F2f', p))
+        # a few dollars of qualified dividends next to ordinary income in the 15 % capital-gain zone: worksheet lines 23 and 24 fall
+        # into the same or neighbouring table rows and "the smaller of" them decides
+        st_ = r.choice(['S', 'MFJ', 'HOH'])
+        # (ordinary taxable income one dollar into a $50 table row, the dividends small enough to stay in that row)
+        p = plain_persona(year, st_, float(_stat.amount('standard_deduction', year, st_) + 50 * r.randint(1300, 1900) + 1), key=f'dirtinyqd:{seed}:{k}', deps_odc=1 if st_ == 'HOH' else 0, n_div=1,
+                          divs=[{'box_1a': round(r.uniform(5, 40), 2), 'box_1b': 0.0, 'box_2a': 0.0, 'box_4': 0.0, 'box_5': 0.0, 'box_7': 0.0, 'box_16_1': 0.0}])
+        p.divs[0]['box_1b'] = p.divs[0]['box_1a']
+        out.append(('F2t', p))
+        # a taxable state refund on Schedule 1 line 1 and an N.C. return with deductions from AGI but nothing entered for the refund
+        p = plain_persona(year, r.choice(['S', 'MFJ']), round(r.uniform(50000, 90000), 2), key=f'dirrefund:{seed}:{k}', nc=True, s1_income=True,
+                          overrides={'nc_d-400_ss.state_local_refund': '0'})
+        p.state_local_adjust = True
+        p.s1['state_local_income_tax'] = round(r.uniform(100, 900), 2)
+        p.ncv['deductions_from_agi'] = True
+        out.append(('F8g', p))
+        # a filer who goes through Schedule A ("itemize = yes") but ends up well below the standard deduction and takes that
+        st_ = r.choice(['S', 'MFJ', 'HOH'])
+        p = plain_persona(year, st_, round(r.uniform(40000, 90000), 2), key=f'diritemless:{seed}:{k}', deps_odc=1 if st_ == 'HOH' else 0, itemize=True)
+        p.sa['state_local_real_estate_taxes'] = round(r.uniform(500, 2500), 2)
+        p.sa['charitable_cash_check'] = round(r.uniform(100, 900), 2)
+        out.append(('F3l', p))
+        # ... and one with nothing at all to put on Schedule A (no state tax withheld, no mortgage, no gifts): the total is 0.00
+        p = plain_persona(year, 'S', round(r.uniform(40000, 90000), 2), key=f'diritemzero:{seed}:{k}', itemize=True)
+        for d in p.w2:
+            d['box_17'] = 0.0
+            d['box_19'] = 0.0
+        out.append(('F3z', p))
         # plain (fully taxable) IRA distributions of both spouses
         p = plain_persona(year, 'MFJ', [round(r.uniform(40000, 90000), 2), round(r.uniform(30000, 60000), 2)], key=f'dirira:{seed}:{k}')
         p.n_1099r = 2
